@@ -528,7 +528,7 @@ func init() {
 		}
 		for _, wd := range append(append([]string{}, specialIDs...), unlistedBases...) {
 			wd = strings.TrimSuffix(wd, "+")
-			for _, suf := range []string{"", "+", "-or-later", "-only", "-or-later+", "-only+"} {
+			for _, suf := range []string{"", "+", "-or-later", "-only", "-or-later+", "-only+", "++", "-or-later++", "+++"} {
 				w2 := wd
 				if rng.Intn(3) == 0 {
 					w2 = caseMut(wd, rng.Intn(3))
@@ -536,6 +536,23 @@ func init() {
 				count("spelling_experiments")
 				if f := c04String(w2+suf, -1); f != nil {
 					fail(*f)
+				}
+			}
+		}
+		for i, e := range tblExceptions {
+			if !thorough() && i%3 != int(seed%3) {
+				continue
+			}
+			for _, suf := range []string{"", "-only", "-or-later", "+", "-only+", "-ONLY"} {
+				for _, ctx := range []string{"MIT WITH %s", "GPL-2.0-or-later+ WITH %s OR ISC", "(Apache-2.0+ WITH %s AND ISC)"} {
+					e2 := e
+					if i%2 == 0 {
+						e2 = strings.ToLower(e)
+					}
+					count("exception_spelling_experiments")
+					if f := c04String(fmt.Sprintf(ctx, e2+suf), -1); f != nil {
+						fail(*f)
+					}
 				}
 			}
 		}
@@ -1515,7 +1532,12 @@ func init() {
 				if !implValid(sp) {
 					continue
 				}
-				for _, pre := range []string{sp + " AND ", "(" + sp + ") OR ", sp + " WITH Classpath-exception-2.0 AND ", "( " + sp + " ) AND (", sp + " AND " + sp + " OR  "} {
+				pres := []string{sp + " AND ", "(" + sp + ") OR ", sp + " WITH Classpath-exception-2.0 AND ", "( " + sp + " ) AND (", sp + " AND " + sp + " OR  "}
+				if i%5 == 0 {
+					// glued: no blank between the spelling (and a '+') and what follows
+					pres = append(pres, sp+"+", sp+"(", "("+sp+")", sp+"+(", sp+" AND DocumentRef-a:", sp+":")
+				}
+				for _, pre := range pres {
 					bad, kind := "FOO-" + itoa(i), "unknown"
 					if i%7 == 0 {
 						bad, kind = "LicenseRef-", "missing"
